@@ -139,8 +139,7 @@ Proof.
     pose proof (tmidA_refines m ltac:(cbn; lia) ltac:(cbn [t_wb m]; exact Hwb) ltac:(cbn [t_nb m]; exact Hnb) l max_next 0 Hvals' Hso Hnn
                   ltac:(intros i Hi; apply Z.bits_0) (S (S (S (length l)))) w lo hi Hlo Hlh Hhn ltac:(cbn [t_max_vocab m]; lia) Hsorted
                   ltac:(cbn [t_max_vocab m]; exact Hle) ltac:(cbn [t_max_vocab m]; exact Hw) Hwd Hfuel) as [res [Hf Hr]].
-    assert (Elen : length (map (r_next pb) l ++ [max_next]) = S (length l)) by (rewrite app_length, map_length; cbn [length]; lia).
-    rewrite Elen in Hf. unfold tstA in Hf.
+    unfold tstA in Hf.
     exists res. split.
     + rewrite <- Hf. unfold n. rewrite <- surjective_pairing. reflexivity.
     + destruct res as [[[[[p prob] bo] cb] ce]|]; [|exact Hr].
